@@ -103,6 +103,9 @@ fn check_inner(g: &Graph, facts: &mut Facts) -> Result<u64, String> {
     }
     let mut edges_ref: Vec<E> = vec![];
     let mut first = true;
+    if sim.globals().topology().edges().count() != 0 {
+        return Err("global view of an unwired simulation has edges".into());
+    }
     for (pi, &(i, j)) in prs.iter().enumerate() {
         for k in 0..g.mult[pi] {
             let gi = format!("g{j}x{k}a");
@@ -127,6 +130,13 @@ fn check_inner(g: &Graph, facts: &mut Facts) -> Result<u64, String> {
             edges_ref.push((j, i, format!("{}.{}", NAMES[j], gj), format!("{}.{}", NAMES[i], gi)));
             if k > 0 {
                 facts.multi_edge = true;
+            }
+            // the view extracted while the wiring grows mirrors the wiring so far
+            facts.queries += 1;
+            let (_, es, cnt, _) = collect(&sim.globals().topology());
+            let so_far: ESet = edges_ref.iter().map(|e| (NAMES[e.0].to_string(), NAMES[e.1].to_string(), e.2.clone(), e.3.clone())).collect();
+            if es != so_far || cnt != edges_ref.len() {
+                return Err(format!("graph {}: global view extracted after connecting {} chains has {cnt} edges {es:?}, the wiring so far has {:?}", case_json(g), edges_ref.len() / 2, so_far));
             }
         }
     }
@@ -305,7 +315,7 @@ impl Property for C19 {
     fn rule(&self, tier: Tier) -> String {
         format!(
             "every multigraph on 1..={} modules (names s, a, ab, c, d) with 0..=2 parallel gate chains per module pair (0..=1 from {} modules on) and optional self chains, x first chain routed directly / through one transit gate on each module / through 15 transit gates (16 hops); \
-             per graph: global view, connected, bidirectional, spanned(root) for every root, dijkstra(src) for every source, filter_nodes for every subset (+ connected on the result), filter_edges removing every single directed edge (+ bidirectional on simple graphs) and keeping only the edges towards higher / lower module indices (+ connected and bidirectional on the one-directional view); \
+             per graph: global view (also re-extracted after every single chain is connected: it must mirror the wiring so far), connected, bidirectional, spanned(root) for every root, dijkstra(src) for every source, filter_nodes for every subset (+ connected on the result), filter_edges removing every single directed edge (+ bidirectional on simple graphs) and keeping only the edges towards higher / lower module indices (+ connected and bidirectional on the one-directional view); \
              oracle: reference adjacency list from the declared wiring, BFS distances; non-trivial = graph with a transit-routed chain, parallel chains, or a root with more than one neighbour",
             tier.pick(4, 5),
             tier.pick(4, 5)
